@@ -622,6 +622,7 @@ def grams_for(prop, tier, seed):
         g += F.fam_rand(tier, seed, 5 if q else 30, "stack")
         ops = F.fam_ops(tier)
         g += ops[::5] if q else ops[::2]
+        g += F.fam_long(tier)
         return g
     if prop == "C10":
         g = F.fam_err(tier) + F.fam_trail(tier)[:2 if q else 6]
@@ -630,6 +631,7 @@ def grams_for(prop, tier, seed):
         ops = F.fam_ops(tier)
         g += ops[::5] if q else ops[::2]
         g += F.fam_repo(tier)
+        g += F.fam_long(tier)
         return g
     if prop == "C05":
         st = F.fam_stack(tier)
